@@ -918,7 +918,7 @@ package commitlog
 // ClearEarliest(o) (used after retention / compaction removed the head of the log): no entry starts below o any
 // more, the entries that start at or after o are kept unchanged, and when something was cut the history now starts
 // exactly at o
-//@ func (*leaderEpochCache).ClearEarliest serves C02, C05
+//@ func (*leaderEpochCache).ClearEarliest serves C02, C05, C09
 //@   requires l != nil && wfEpochs(l)
 //@   ensures [wf] wfEpochs(l)
 //@   ensures [nothing-below] old(len(l.epochOffsets)) >= 1 ==> (forall i int :: 0 <= i && i < len(l.epochOffsets) ==> l.epochOffsets[i].startOffset >= offset || old(l.epochOffsets[0].startOffset) >= offset)
